@@ -41,6 +41,14 @@ carry (generate, ...) owe it on every receiver.  A reference to an obligation ca
 fmin_l_bfgs_b, stored, ...) is only accepted in the shape  g(f, x, args=(...))  with the random-state slot of f filled by a gen/val element of
 args; any other escape fails closed.
 
+Guarded draws.  A site that consumes or advances a seeded stream (Seeded, CS, CSSeed, CtorSeeded, Pass) and whose execution is CONDITIONAL on
+ambient state of the process - the logging configuration (logging.* / logger.* calls in a test), warnings filters, os.environ / os.getenv,
+os.getcwd, sys.flags / sys.argv / sys.warnoptions / sys.gettrace / isatty, __debug__, clocks and the other environment reads, a verbosity
+attribute or parameter (`verbose`) - is classified Guarded: the position of the stream, hence every later proposal, depends on that
+state and not on the seed alone.  Conditional = inside an if / while / conditional expression with such a test, after an early exit
+(`if <ambient>: return / raise / continue / break`) in an enclosing block, or inside a function of the anchors that is only called under
+such a condition (propagated through self.m(...) / f(...) calls).
+
 Generators under Parallel.  Tasks built with delayed(f)(...) inside Parallel(...)(...) may run concurrently: a generator expression handed to
 a task (anywhere in its arguments) must be a PER-TASK generator, i.e. a constructor call written in the task's argument list
 (np.random.RandomState(child_seed)), or a child seed.  A shared generator (self.rng, a local rng) handed to the tasks of a
@@ -63,7 +71,7 @@ ANCHORS = [
     "hpo/_search.py", "hpo/_cbo.py", "hpo/_random.py", "hpo/_regevo.py", "skopt/optimizer/optimizer.py",
     "skopt/space/space.py", "skopt/acquisition.py", "skopt/moo/_multiobjective.py",
 ]
-CLASSES = ["Seeded", "Global", "CtorSeeded", "CtorFresh", "Dist", "CS", "CSSeed", "Ext", "Pass", "PassFresh", "PassShared"]
+CLASSES = ["Seeded", "Global", "CtorSeeded", "CtorFresh", "Dist", "CS", "CSSeed", "Ext", "Pass", "PassFresh", "PassShared", "Guarded"]
 ENV_KINDS = ["SetOrder", "Hash", "Id", "Listing", "Clock", "Pid", "Entropy", "SharedState"]
 FLOWS = ["LogOnly", "PathOnly", "Flows", "Owned"]
 
@@ -551,6 +559,64 @@ class FileWalk:
                     raise Closed("%s:%d: %s handed over with args=(...) whose random-state slot is not seeded" % (self.rel, n.lineno, ast.unparse(n)))
             raise Closed("%s:%d: the callable %s (takes a random state) escapes as a value: %s" % (self.rel, n.lineno, ast.unparse(n), ast.unparse(p)[:80] if p is not None else ""))
 
+    # ---------- guarded draws ----------
+    def is_ambient(self, e):
+        """Does the expression read ambient state of the process?"""
+        for x in ast.walk(e):
+            if isinstance(x, ast.Call):
+                d = dotted(x.func)
+                root = d.split(".")[0]
+                if root in ("logging", "logger", "log", "warnings") or ".isEnabledFor" in d or ".getEffectiveLevel" in d or d.endswith(".isatty"):
+                    return True
+                f = self.fq(d)
+                if d in ENV_CALLS or f in ENV_CALLS or f in ("os.getenv", "os.getcwd", "os.cpu_count", "sys.gettrace", "sys.getrecursionlimit", "platform.system", "platform.node"):
+                    return True
+            elif isinstance(x, ast.Attribute):
+                d = dotted(x)
+                f = self.fq(d) or d
+                if f.startswith(("os.environ", "sys.flags", "sys.argv", "sys.warnoptions", "sys.platform", "logging.root")) or "verbose" in x.attr.lower():
+                    return True
+            elif isinstance(x, ast.Name):
+                if x.id == "__debug__" or "verbose" in x.id.lower():
+                    return True
+        return False
+
+    def ambient_condition_of(self, node):
+        """The ambient test that decides whether `node` is executed, within its function: an enclosing if / while / conditional expression /
+        assert-free early exit.  Returns the source text of the test or None."""
+        fn = self.inner_function(node)
+        n = node
+        while n in self.parent and n is not fn:
+            p = self.parent[n]
+            if isinstance(p, (ast.If, ast.While, ast.IfExp)) and n is not p.test and self.is_ambient(p.test):
+                return ast.unparse(p.test)[:80]
+            if isinstance(p, ast.BoolOp) and any(self.is_ambient(v) for v in p.values[:p.values.index(n)] if n in p.values):
+                return ast.unparse(p)[:80]     # short-circuit: `ambient and draw()`
+            # early exits before this statement in the same block
+            for field in ("body", "orelse", "finalbody"):
+                blk = getattr(p, field, None)
+                if isinstance(blk, list) and n in blk:
+                    for st in blk[:blk.index(n)]:
+                        if isinstance(st, ast.If) and self.is_ambient(st.test) and any(isinstance(y, (ast.Return, ast.Raise, ast.Continue, ast.Break)) for y in ast.walk(st)):
+                            return "after: " + ast.unparse(st.test)[:70]
+            n = p
+        return None
+
+    def guarded_functions(self):
+        """Functions of this file that are only called (inside the anchors' classes / module) under an ambient condition: name -> condition."""
+        calls = {}
+        for n in ast.walk(self.tree):
+            if isinstance(n, ast.Call):
+                name = None
+                if isinstance(n.func, ast.Attribute) and isinstance(n.func.value, ast.Name) and n.func.value.id == "self":
+                    name = n.func.attr
+                elif isinstance(n.func, ast.Name):
+                    name = n.func.id
+                if name:
+                    calls.setdefault(name, []).append(self.ambient_condition_of(n))
+        defined = {f.name for f in ast.walk(self.tree) if isinstance(f, (ast.FunctionDef, ast.AsyncFunctionDef))}
+        return {k: v[0] for k, v in calls.items() if k in defined and v and all(x is not None for x in v)}
+
     # ---------- Parallel ----------
     def parallel_of(self, c):
         """If c is a task  delayed(f)(...)  of a  Parallel(...)(<comprehension>) : 'sharedmem' (threads share the arguments) or 'copies'; else None."""
@@ -817,6 +883,7 @@ class FileWalk:
         return worst
 
     def walk(self):
+        self._guarded_fns = self.guarded_functions()
         for c in ast.walk(self.tree):
             if isinstance(c, ast.Call):
                 d = dotted(c.func)
@@ -828,6 +895,17 @@ class FileWalk:
                 except Closed as e:
                     raise Closed("%s:%d: %s: %s" % (self.rel, c.lineno, e, ast.unparse(c)[:160]))
                 if cls is not None:
+                    if cls in ("Seeded", "CS", "CSSeed", "CtorSeeded", "Pass"):
+                        cond = self.ambient_condition_of(c)
+                        if cond is None:   # ... or the whole function only runs under an ambient condition
+                            f0 = self.inner_function(c)
+                            seen = set()
+                            while f0 is not None and f0.name not in seen and cond is None:
+                                seen.add(f0.name)
+                                cond = self._guarded_fns.get(f0.name)
+                                f0 = self.inner_function(f0)
+                        if cond is not None:
+                            cls = "Guarded"
                     self.rng_sites.append(dict(file=self.rel, line=c.lineno, end=c.end_lineno, func=qn, callee=d, cls=cls, guard=self.guard_of(c)))
                 f = self.fq(d)
                 ek = ENV_CALLS.get(d) if d in ("hash", "id") else ENV_CALLS.get(f)
